@@ -217,3 +217,24 @@ def locator_distance_is_taken_between_global_positions(i: int, j: int, k: int, p
         other = g[n]
         d = loc.distanceTo(other)
         assert d >= 0 and eq(d * d, pitch * pitch), "one pitch away whatever the displacement of the grid"
+
+
+@lemma(gen={"i": (-40, 40), "j": (-40, 40), "k": (-5, 5), "a": (-40, 40), "b": (-40, 40), "c": (-5, 5)})
+def the_grid_lists_exactly_the_locators_it_handed_out(i: int, j: int, k: int, a: int, b: int, c: int, cornersUp: bool):
+    """StructuredGrid.items(): the (index triple, locator) pairs of the locators handed out so far - each cell once
+    (asking twice for one cell adds nothing), every triple paired with THE locator of that cell; a list request adds its
+    member cells and nothing for the collection itself."""
+    g = hexgrid(1.0, cornersUp)
+    assert len(list(g.items())) == 0
+    loc = g[i, j, k]
+    other = g[a, b, c]
+    again = g[i, j, k]
+    pairs = list(g.items())
+    same_cell = (a, b, c) == (i, j, k)
+    assert len(pairs) == (1 if same_cell else 2), "one entry per cell"
+    for key, val in pairs:
+        assert (val.i, val.j, val.k) == key and val.grid is g, "every triple is paired with the locator of that cell"
+        assert val is loc or val is other
+    assert pairs[0][1] is loc and (same_cell or pairs[1][1] is other), "in the order of first request"
+    m = g[[(i, j, k), (a, b, c)]]
+    assert len(list(g.items())) == len(pairs), "a multi-index locator of known cells adds nothing"
